@@ -48,15 +48,20 @@ CLAIMED = {
     "C04": dict(
         text=("Theorems (Coq, unbounded arity / level counts / rows): labelled-product theorem (labels and entries of an "
               "interaction stay aligned, left factor slowest, counts equal), treatment-coded component = indicator "
-              "columns with the reference row zero, whole-term statement for numeric and treatment-coded components, "
-              "levels sorted and duplicate-free." + COMMON),
+              "columns with the reference row zero, Sum-coded component = contrast columns (1 own level, -1 omitted "
+              "level, optional [mean] column), whole-term statement and closed form for terms of numeric, Treatment- "
+              "and Sum-coded components: column j holds the product of what the pieces of its label denote "
+              "(C04_every_column_holds_what_its_label_says); levels sorted and duplicate-free." + COMMON),
         design_ref="DESIGN.md section 5 C04, section 10",
         technique="Coq proof: labelled Kronecker product / indicator coding; differential correspondence; label-denotation oracle"),
     "C05": dict(
         text=("Theorems (Coq, unbounded): a group-specific block is the row-wise Kronecker product of the one-hot group "
               "row with the effect row (zeros outside the own group, effect values inside), group slowest; labels "
-              "aligned. The choice of effect coding is NOT a theorem: the implementation uses one uniform flag "
-              "(finding KF-C05-1); the rank oracle on crossed data decides it per input." + COMMON),
+              "aligned. Effect coding: every group-specific term is coded with one flag, reduced exactly when (1|same "
+              "factor) is present (C05_effect_coding_rule); for the shapes (1|g), (x|g), (0 + f|g), (f|g) this is what "
+              "the common-effects analysis prescribes (four agreement theorems); for several categorical effects "
+              "under one factor it is not (C05_refuted_uniform_flag = listed finding KF-C05-1); the rank oracle on "
+              "crossed data decides every other input." + COMMON),
         design_ref="DESIGN.md section 5 C05, section 10",
         technique="Coq proof: one-hot Kronecker block structure; rank oracle on crossed designs; correspondence"),
     "C06": dict(
